@@ -15,7 +15,7 @@ import re
 import common
 import minif
 from common import sx, parse_sx
-from props import c07_gen
+from props import c07_gen, c07_sec
 
 GF_FLAGS = ("-fcheck=bounds",)
 
@@ -112,6 +112,89 @@ def export_actual(arg, names):
             raise minif.Unsupported("rank > 2")
         return ["var", names.id(arg.name)]
     return ["expr", minif.export_expr(arg, names)]
+
+
+def export_aidx(arg, names):
+    """array actual `a(...)` (before apply) -> list of model `AIdx` S-expressions (any rank)"""
+    _, _, N, _, _ = _psy()
+    los = lower_bounds(arg.symbol)
+    out = []
+    for pos, ix in enumerate(arg.indices):
+        if isinstance(ix, N.Range):
+            st = ix.start
+            if isinstance(st, N.IntrinsicCall) and st.intrinsic.name.upper() == "LBOUND":
+                start = "none"
+            else:
+                start = minif.export_expr(st, names)
+            out.append(["sec", los[pos], start, lit_int(ix.step)])
+        else:
+            out.append(["ix", los[pos], minif.export_expr(ix, names)])
+    return out
+
+
+def export_idxrefs(call, callee, names):
+    """the element references to array formals bound to `a(...)` actuals, in walk order:
+    -> list of dict(sym=actual array symbol, aidx, los, ks (None = not an element reference of the modelled form))
+    or None when references cannot be paired with the inlined tree by walk order"""
+    _, _, N, _, _ = _psy()
+    formals = callee.symbol_table.argument_list
+    if len(formals) != len(call.arguments):
+        return None
+    bound = {}
+    for f, a in zip(formals, call.arguments):
+        if is_array(f) and isinstance(a, N.ArrayReference) and is_array(a.symbol):
+            bound[f.name.lower()] = (f, a)
+    if not bound:
+        return None
+    caller = call.ancestor(N.Routine)
+    visible, tab = set(), caller.symbol_table
+    while tab is not None:
+        visible |= {n.lower() for n in tab.symbols_dict.keys()}
+        tab = tab.parent_symbol_table()
+
+    def plain(ix):
+        """the local index mentions only callee locals that keep their name (so substitution leaves it unchanged)"""
+        for r in ix.walk(N.Reference):
+            if type(r) is not N.Reference or r.symbol in formals or r.name.lower() in visible \
+                    or r.name.lower() not in callee.symbol_table.symbols_dict:
+                return False
+        return True
+    syms = [a.symbol for _, a in bound.values()]
+    if len({id(s) for s in syms}) != len(syms):
+        return None                               # two formals on one array: walk order would be ambiguous
+    for a in call.arguments:                      # the arrays must not be mentioned anywhere else in the call
+        for ref in a.walk(N.Reference):
+            if any(ref.symbol is s for s in syms) and not any(ref is b for _, b in bound.values()):
+                return None
+    out = []
+    for ref in callee.walk(N.Reference):
+        key = ref.name.lower()
+        if key not in bound or ref.symbol is not bound[key][0]:
+            continue
+        f, a = bound[key]
+        ent = {"sym": a.symbol, "formal": key, "ks": None}
+        try:
+            ent["aidx"] = export_aidx(a, names)
+            ent["los"] = lower_bounds(f)
+            if isinstance(ref, N.ArrayReference) and not any(isinstance(i, N.Range) for i in ref.indices) \
+                    and all(plain(i) for i in ref.indices):
+                ent["ks"] = [minif.export_expr(i, names) for i in ref.indices]
+        except minif.Unsupported:
+            ent["ks"] = None
+        out.append(ent)
+    return out
+
+
+def real_idxrefs(nodes, refs):
+    """index lists of the references to the actual arrays in the inlined statements, in walk order"""
+    _, _, N, _, _ = _psy()
+    syms = {id(e["sym"]) for e in refs}
+    out = []
+    for node in nodes:
+        for ref in node.walk(N.Reference):
+            if id(ref.symbol) in syms:
+                out.append(ref)
+    return out
 
 
 def export_call(call, callee, names):
@@ -218,6 +301,10 @@ def real_inline(src):
         if site is None:
             res["status"] = "skipped"
             return res
+    try:
+        res["idxrefs"] = export_idxrefs(call, callee, names)
+    except minif.Unsupported:
+        res["idxrefs"] = None
     res["base_ids"] = set(names.ids.values())
     parent, pos, nbefore = site.parent, site.position, len(site.parent.children)
     try:
@@ -231,6 +318,19 @@ def real_inline(src):
     nnew = len(parent.children) - nbefore + 1
     res["inlined_nodes"] = parent.children[pos:pos + nnew]
     res["status"] = "ok"
+    if res.get("idxrefs"):
+        # the substituted references, paired with the callee's by walk order (substitution is in place)
+        real = real_idxrefs(res["inlined_nodes"], res["idxrefs"])
+        if len(real) != len(res["idxrefs"]):
+            res["idxrefs"] = None
+        else:
+            for ent, ref in zip(res["idxrefs"], real):
+                ent["real"] = None
+                if ent["ks"] is not None and isinstance(ref, N.ArrayReference) and ref.symbol is ent["sym"]:
+                    try:
+                        ent["real"] = [minif.export_expr(i, names) for i in ref.indices]
+                    except minif.Unsupported:
+                        ent["real"] = "unsupported"
     try:
         # only the transformed caller is written back; the rest of the file is the original text (keeps
         # FortranWriter defects on untouched routines, e.g. `dimension(1:)` -> `dimension()`, out of this check)
@@ -487,6 +587,8 @@ def run(chk):
     for path in sorted(glob.glob(os.path.join(common.ROOT, "corpus", "C07", "*.json"))):
         p = json.load(open(path))
         cases.append((p["src"], p.get("modvar", "integer :: g" in p["src"]), "corpus"))
+    for src, kind in c07_sec.family(chk.rng, chk.tier == "thorough"):      # systematic array-section family
+        cases.append((src, False, kind))
     for _ in range(n):
         c = c07_gen.gen_case(chk.rng)
         cases.append((c.src, c.modvar, c.kind))
@@ -501,12 +603,31 @@ def run(chk):
             lines.append(sx(["inline", r["callsx"]] + r.get("fuse", [])))
             lines.append(sx(["run", r["prog"], [], [list(q) for q in c07_gen.queries(r["names"], r["modvar"])]]))
     out = common.driver("C07", lines)
+    # index map of array-section actuals (any rank): model `updateIdx` vs the indices InlineTrans produced
+    ilines, iidx = [], []
+    for k, r in enumerate(results):
+        if r.get("status") == "ok" and r.get("idxrefs"):
+            for e in r["idxrefs"]:
+                if e["ks"] is not None and e.get("real") is not None:
+                    iidx.append((k, e))
+                    ilines.append(sx(["idxmap", e["aidx"], e["los"], e["ks"]]))
+    iout = common.driver("C07", ilines) if ilines else []
+    idx_bad = {}
+    for (k, e), mo in zip(iidx, iout):
+        if not mo.startswith("("):
+            raise common.Infra("C07 driver: " + mo)
+        m = parse_sx(mo)
+        want = m[1:] if m[0] == "ok" else None
+        if want != e["real"]:
+            idx_bad.setdefault(k, (e, mo))
     chk.cov["phase_s"]["driver"] = round(time.time() - t0, 1)
     risky = {id(results[k]) for j, k in enumerate(idx)
              if out[2 * j].startswith("(ok") and parse_sx(out[2 * j])[2:5] != [1, 1, 1]}
     run_gf_all(results, risky)                                         # batched, threaded: gfortran dominates
     chk.cov["phase_s"]["gfortran"] = round(time.time() - t0, 1)
     dist = {"accepted": 0, "refused": 0, "unsupported": 0, "invalid_original": 0, "in_proved_domain": 0,
+            "index_map_refs": len(iidx), "index_map_cases": len({k for k, _ in iidx}),
+            "index_map_rank3_refs": len([1 for _, e in iidx if len(e["aidx"]) == 3]),
             "known_class": {}, "known_class_failing": {}, "refusal": {}, "kind": {}, "gfortran_pairs": 0}
     model = {}
     for j, k in enumerate(idx):
@@ -516,9 +637,13 @@ def run(chk):
         src, modvar, kind = case
         dist["kind"][kind] = dist["kind"].get(kind, 0) + 1
         verdict = property_verdict(r)
+        if k in idx_bad:
+            e, mo = idx_bad[k]
+            chk.correspondence_broken("index map: _update_actual_indices differs from the model (updateIdx) on x("
+                                      + sx(e["ks"]) + ") bound to actual " + sx(e["aidx"]), {"src": src}, mo, sx(e["real"]))
         if k not in model:
             dist["unsupported"] += 1
-            chk.case({"src": src}, nontrivial=False, agreed=True)
+            chk.case({"src": src}, nontrivial=(k in {kk for kk, _ in iidx}), agreed=k not in idx_bad)
             if verdict:
                 chk.violation({"kind": "failing-input", "src": src, "observed": verdict[0], "expected": verdict[1],
                                "note": "outside the modelled subset: " + r.get("unsupported", "")})
@@ -573,7 +698,7 @@ def run(chk):
                     chk.correspondence_broken("model of the inlined program differs from gfortran on the real inlined program",
                                               {"src": src}, vals[1], parse_out(gi[1]))
         nontriv = r["status"] == "ok" and len(r.get("inlined_nodes", [])) >= 2
-        chk.case({"src": src}, nontrivial=nontriv, agreed=agreed)
+        chk.case({"src": src}, nontrivial=nontriv, agreed=agreed and k not in idx_bad)
         if cls:
             for c in cls:
                 dist["known_class"][c] = dist["known_class"].get(c, 0) + 1
